@@ -384,8 +384,8 @@ theorem occ_in_group (inp : FindInput) (hW : WindowComplete inp) (g : Nat → Na
     unfold imageIndex; rw [hocc.home, searchMultipliers_idxOf_zero]; simp
   have hcand : tl ∈ candsOf inp := by
     unfold candsOf
-    apply candidates_complete inp.ppos inp.pelems inp.atol (patMax inp) inp.pos.length (nearPosOf inp) (nearElemOf inp) tl
-      hW.pat hlen
+    apply candidates_complete inp.ppos inp.pelems inp.atol (patMax inp) inp.pos.length (nearPosOf inp) (nearElemOf inp)
+      (nearUcOf inp) tl hW.pat hlen
     · rw [htl 0 hW.pat]
       have hn := hnear 0 hW.pat
       have := hocc.idx_lt 0 hW.pat
@@ -407,6 +407,19 @@ theorem occ_in_group (inp : FindInput) (hW : WindowComplete inp) (g : Nat → Na
       rw [hlen] at hi
       rw [hNP j (by omega), hNP i hi]
       exact hocc.dist i j hji hi
+    · -- different unit-cell atoms: `g` is injective on the pattern positions
+      intro i j hji hi
+      rw [hlen] at hi
+      have hUC : ∀ k, k < L → (nearUcOf inp).getD (tl.getD k 0) 0 = g k := by
+        intro k hk
+        have hn := hnear k hk
+        have him := occ_imagesW inp hW g n hocc k hk
+        have hidx := imageIndex_spec inp (g k) (n k) (hocc.idx_lt k hk) him.2
+        rw [htl k hk]
+        unfold nearUcOf
+        rw [getD_map_of_lt _ _ _ _ 0 hn.1, hn.2.1, hidx.2.2]
+      rw [hUC j (by omega), hUC i hi]
+      exact hocc.inj i j hji hi
   -- the tuple in `allPositions` indices
   have hTT : tl.map (fun k => (nearOf inp).getD k 0) = occTuple inp g n := by
     unfold occTuple
